@@ -157,6 +157,18 @@ Definition extractSet (p : bytes) : bytes * list bytes :=
   | None => (p, [])
   end.
 
+(* splitComma: split at the commas outside of quoted literals *)
+Fixpoint split_comma_aux (p : bytes) (quote : N) (cur : bytes) : list bytes :=
+  match p with
+  | [] => [rev cur]
+  | c :: r =>
+      if negb (N.eqb quote 0) then split_comma_aux r (if N.eqb c quote then 0%N else quote) (c :: cur)
+      else if N.eqb c 34 || N.eqb c 39 || N.eqb c 96 then split_comma_aux r c (c :: cur)
+      else if N.eqb c c_comma then rev cur :: split_comma_aux r 0%N []
+      else split_comma_aux r 0%N (c :: cur)
+  end.
+Definition split_comma (p : bytes) : list bytes := split_comma_aux p 0%N [].
+
 Definition extractArgs (l : bytes) : list arg :=
   match l with
   | [] => []
@@ -165,7 +177,7 @@ Definition extractArgs (l : bytes) : list arg :=
              let a := trim space a in
              if isStatic a then mkArg (trim quotes a) [] true
              else let '(v, set) := extractSet a in mkArg v set false)
-          (split_byte c_comma l)
+          (split_comma l)
   end.
 
 Section WITH_NAMES.
